@@ -2122,7 +2122,8 @@ func (d *decoderJsonBytes) kArray(f *decFnInfo, rv reflect.Value) {
 	rvlen := rv.Len()
 	hasLen := containerLenS >= 0
 	if hasLen && containerLenS > rvlen {
-		halt.errorf("cannot decode into array with length: %v, less than container length: %v", any(rvlen), any(containerLenS))
+
+		d.arrayCannotExpand(rvlen, containerLenS)
 	}
 
 	var elemReset = d.h.SliceElementReset
@@ -6307,7 +6308,8 @@ func (d *decoderJsonIO) kArray(f *decFnInfo, rv reflect.Value) {
 	rvlen := rv.Len()
 	hasLen := containerLenS >= 0
 	if hasLen && containerLenS > rvlen {
-		halt.errorf("cannot decode into array with length: %v, less than container length: %v", any(rvlen), any(containerLenS))
+
+		d.arrayCannotExpand(rvlen, containerLenS)
 	}
 
 	var elemReset = d.h.SliceElementReset
